@@ -1,5 +1,7 @@
 import TracklibVerif.Lemmas.Seq
 import TracklibVerif.Lemmas.SeqSearch
+import TracklibVerif.Lemmas.SeqFeat
+import TracklibVerif.Lemmas.SeqRadix
 /-! # C04 — sequence operations on a track select exactly the designated observations
 
 Property theorems only (helper lemmas: `Lemmas/Seq.lean`, `Lemmas/SeqSearch.lean`). The model is
@@ -47,17 +49,21 @@ theorem extractSpanTime_spec (tr : Track) (t1 t2 : Int) :
     rw [Bool.eq_iff_iff]; simp only [Bool.and_eq_true, Bool.not_eq_true', decide_eq_false_iff_not, decide_eq_true_eq]
     omega
 
-/-- `t1 + t2` is the observations of `t1` followed by those of `t2`; when both carry the same
-feature-name table the sum carries it too. -/
+/-- `t1 + t2` is the observations of `t1` followed by those of `t2`. Its table is decided by the two lists of
+NAMES only: the table of `t1` when they are equal position by position, the empty table otherwise
+(different sets, the same names in another order, one side without features). -/
 theorem concat_spec (t1 t2 : Track) :
-    (concat t1 t2).pts = t1.pts ++ t2.pts ∧ (t1.names = t2.names → (concat t1 t2).table = t1.table) := by
+    (concat t1 t2).pts = t1.pts ++ t2.pts ∧
+      (concat t1 t2).table = if t1.names = t2.names then t1.table else [] := by
   refine ⟨rfl, ?_⟩
-  intro h
-  have : ∀ (a : List String), sameNames a a = true := by
-    intro a; induction a with
-    | nil => rfl
-    | cons x xs ih => simp [sameNames, ih]
-  simp [concat, ← h, this]
+  unfold concat
+  by_cases h : t1.names = t2.names
+  · simp [h, (sameNames_iff t2.names t2.names).mpr rfl]
+  · have : sameNames t1.names t2.names = false := by
+      cases hs : sameNames t1.names t2.names with
+      | false => rfl
+      | true => exact absurd ((sameNames_iff _ _).mp hs) h
+    simp [h, this]
 
 /-- `track % n` (`n ≥ 1`) keeps exactly the observations at positions `0, n, 2n, …`: it is the
 sub-sequence at the positions `≡ 0 (mod n)`, and its `i`-th observation is the source's `(i·n)`-th. -/
@@ -105,6 +111,289 @@ theorem removeByIdx_spec (l : List α) (tab : List Int)
 theorem removeByIdx_refuses_duplicates (l : List α) (tab : List Int) (hn : ¬ tab.Nodup) :
     removeByIdx l tab = (l, some 0) := removeByIdx_dup l tab hn
 
+
+/-! ## the feature table is carried over: what every observation of a result reads by name
+
+A track's table maps a feature name to a COLUMN of the observations' value lists (`readAF` =
+`getObsAnalyticalFeature(name, i)` = `track[name, i]`). `Carries r s` says: `r` has the table of `s` (same names,
+same columns), every observation of `r` is an observation of `s`, and it reads under every name exactly what it
+read in `s`. It holds for EVERY argument of the operator (also those that designate nothing). Which
+observations the result holds is the subject of the `_spec` theorems above. -/
+
+def Carries (r s : Track) : Prop :=
+  r.table = s.table ∧ ∀ (i : Nat) (o : Obs), r.pts[i]? = some o →
+    ∃ j : Nat, s.pts[j]? = some o ∧ ∀ nm, readAF r nm (i : Int) = readAF s nm (j : Int)
+
+theorem carries_intro {r s : Track} (ht : r.table = s.table) (hm : ∀ o ∈ r.pts, o ∈ s.pts) : Carries r s :=
+  ⟨ht, carries_of_mem r s ht hm⟩
+
+/-- `extract(a, b)` (any integers for which the code does not raise) -/
+theorem extract_carries (tr : Track) (a b : Int) (r : Track) (h : extract tr a b = some r) : Carries r tr := by
+  unfold extract at h
+  cases hl : extractLoop tr.pts a (b + 1 - a).toNat with
+  | none => simp [hl] at h
+  | some p =>
+    simp only [hl, Option.map_some, Option.some.injEq] at h
+    subst h
+    exact carries_intro rfl (extractLoop_subset tr.pts _ a p hl)
+
+/-- `extractSpanTime(t1, t2)` -/
+theorem extractSpanTime_carries (tr : Track) (t1 t2 : Int) : Carries (extractSpanTime tr t1 t2) tr :=
+  carries_intro rfl (fun _ ho => (List.mem_filter.mp ho).1)
+
+/-- `extractSpanTime(track)`: the span of the other track's first and last observation -/
+theorem extractSpanTrack_spec (tr other : Track) (a b : Obs) (ha : other.pts.head? = some a)
+    (hb : other.pts.getLast? = some b) :
+    extractSpanTrack tr other = some (extractSpanTime tr a.time b.time) := by
+  cases hp : other.pts with
+  | nil => simp [hp] at ha
+  | cons x xs =>
+    have hlast : pyGet other.pts (-1) = some b := by
+      have hlen : 0 < other.pts.length := by rw [hp]; simp
+      have e : ((other.pts.length : Int) + -1).toNat = other.pts.length - 1 := by omega
+      have h2 : (0 : Int) ≤ (other.pts.length : Int) + -1 := by omega
+      simp only [pyGet, show ¬ ((0 : Int) ≤ -1) by omega, if_false, h2, if_true, e]
+      rw [← hb, List.getLast?_eq_getElem?]
+    have hfirst : pyGet other.pts 0 = some a := by
+      rw [← ha]; simp [pyGet, List.head?_eq_getElem?]
+    simp only [extractSpanTrack, hfirst, hlast]
+
+theorem extractSpanTrack_carries (tr other r : Track) (h : extractSpanTrack tr other = some r) : Carries r tr := by
+  unfold extractSpanTrack at h
+  split at h
+  · cases h; exact extractSpanTime_carries tr _ _
+  · cases h
+
+/-- `track % n` -/
+theorem decimateStep_carries (tr : Track) (n : Int) (r : Track) (h : decimateStep tr n = some r) : Carries r tr := by
+  unfold decimateStep pyStep at h
+  split at h
+  · cases h
+  · split at h
+    · cases h
+      exact carries_intro rfl (stepAux_subset _ 0 tr.pts)
+    · cases h
+      exact carries_intro rfl (fun o ho => List.mem_reverse.mp (stepAux_subset _ 0 tr.pts.reverse o ho))
+
+/-- `track % pattern` -/
+theorem decimatePattern_carries (tr : Track) (pat : List Bool) (r : Track) (h : decimatePattern tr pat = some r) :
+    Carries r tr := by
+  unfold decimatePattern at h
+  split at h
+  · cases h
+  · cases h; exact carries_intro rfl (patLoop_subset pat 0 tr.pts)
+
+/-- `track > n` -/
+theorem dropFirst_carries (tr : Track) (n : Int) : Carries (dropFirst tr n) tr :=
+  carries_intro rfl (pySliceFrom_subset tr.pts n)
+
+/-- `track < n` -/
+theorem dropLast_carries (tr : Track) (n : Int) : Carries (dropLast tr n) tr :=
+  carries_intro rfl (fun _ ho => List.mem_of_mem_take ho)
+
+/-- `track[a:b:c]` -/
+theorem getitemSlice_carries (tr : Track) (a b c : Option Int) (r : Track) (h : getitemSlice tr a b c = some r) :
+    Carries r tr := by
+  unfold getitemSlice at h
+  cases hp : pySlice tr.pts a b c with
+  | none => simp [hp] at h
+  | some p =>
+    simp only [hp, Option.map_some, Option.some.injEq] at h
+    subst h
+    exact carries_intro rfl (pySlice_subset tr.pts a b c p hp)
+
+/-- `sort()` (any permutation `argsort` returns) -/
+theorem sort_carries (tr : Track) (perm : List Nat) (r : Track) (h : sortWith perm tr = some r) : Carries r tr := by
+  unfold sortWith at h
+  cases hp : gather tr.pts perm with
+  | none => simp [hp] at h
+  | some p =>
+    simp only [hp, Option.map_some, Option.some.injEq] at h
+    subst h
+    exact carries_intro rfl (gather_subset tr.pts perm p hp)
+
+/-- `removeObsList(tab)` (hence `removeObs`, `removeFirstObs`, `removeLastObs`, `popObs`), any index list -/
+theorem removeObsList_carries (tr : Track) (tab : List Int) :
+    Carries ⟨(removeByIdx tr.pts tab).1, tr.table⟩ tr :=
+  carries_intro rfl (removeByIdx_subset tr.pts tab)
+
+/-- `insertObs(obs)`, `insertObs(obs, i)`, `addObs(obs)`: the table is unchanged, the old observations read as
+before, the new one reads its own value list through the track's table -/
+theorem insert_carries (tr : Track) (o : Obs) (r : Track)
+    (h : insertChrono tr o = some r ∨ (∃ i, r = insertAt tr o i) ∨ r = addObs tr o) :
+    r.table = tr.table ∧ ∀ (i : Nat) (x : Obs), r.pts[i]? = some x →
+      (x = o ∧ ∀ nm, readAF r nm (i : Int) = o.read tr.table nm) ∨
+      (∃ j : Nat, tr.pts[j]? = some x ∧ ∀ nm, readAF r nm (i : Int) = readAF tr nm (j : Int)) := by
+  have key : r.table = tr.table ∧ ∀ x ∈ r.pts, x = o ∨ x ∈ tr.pts := by
+    rcases h with h | ⟨i, h⟩ | h
+    · unfold insertChrono at h
+      split at h
+      · cases h; exact ⟨rfl, fun x hx => pyInsert_mem tr.pts _ o x hx⟩
+      · cases h
+    · subst h; exact ⟨rfl, fun x hx => pyInsert_mem tr.pts i o x hx⟩
+    · subst h
+      refine ⟨rfl, fun x hx => ?_⟩
+      rcases List.mem_append.mp hx with hx | hx
+      · exact Or.inr hx
+      · exact Or.inl (by simpa using hx)
+  refine ⟨key.1, ?_⟩
+  intro i x hi
+  rcases key.2 x (List.mem_of_getElem? hi) with e | hm
+  · left
+    refine ⟨e, fun nm => ?_⟩
+    rw [readAF_of_get hi nm, key.1, e]
+  · right
+    obtain ⟨j, hj⟩ := List.mem_iff_getElem?.mp hm
+    exact ⟨j, hj, fun nm => readAF_congr key.1 (hi.trans hj.symm) nm⟩
+
+/-- `t1 + t2` when the two tracks list the same names, both tables being well-formed (distinct names, the column
+of a name is its rank: what `createAnalyticalFeature` / `removeAnalyticalFeature` build, `createAF_wf`,
+`removeAF_wf`): the sum has that table and EVERY observation — those of `t2` too — reads under every name what
+it read in its own track. -/
+theorem concat_carries (t1 t2 : Track) (h1 : WF t1.table) (h2 : WF t2.table) (hn : t1.names = t2.names) :
+    (concat t1 t2).table = t1.table ∧
+    (∀ i : Nat, i < t1.pts.length → (concat t1 t2).pts[i]? = t1.pts[i]? ∧
+      ∀ nm, readAF (concat t1 t2) nm (i : Int) = readAF t1 nm (i : Int)) ∧
+    (∀ k : Nat, (concat t1 t2).pts[t1.pts.length + k]? = t2.pts[k]? ∧
+      ∀ nm, readAF (concat t1 t2) nm ((t1.pts.length + k : Nat) : Int) = readAF t2 nm (k : Int)) := by
+  have ht : (concat t1 t2).table = t1.table := by rw [(concat_spec t1 t2).2, if_pos hn]
+  have h12 : t1.table = t2.table := wf_eq_of_names h1 h2 hn
+  refine ⟨ht, ?_, ?_⟩
+  · intro i hi
+    have hp : (concat t1 t2).pts[i]? = t1.pts[i]? := by
+      show (t1.pts ++ t2.pts)[i]? = _
+      rw [List.getElem?_append_left hi]
+    exact ⟨hp, fun nm => readAF_congr ht hp nm⟩
+  · intro k
+    have hp : (concat t1 t2).pts[t1.pts.length + k]? = t2.pts[k]? := by
+      show (t1.pts ++ t2.pts)[t1.pts.length + k]? = _
+      rw [List.getElem?_append_right (by omega)]
+      congr 1; omega
+    exact ⟨hp, fun nm => readAF_congr (ht.trans h12) hp nm⟩
+
+/-- `t1 + t2` when the lists of names differ (different sets, another order, one side without features): the sum
+lists NO feature; every read by name raises `AnalyticalFeatureError` (the value lists stay in the observations,
+out of reach). So "under every name the result lists" holds vacuously, and no observation can read another's value. -/
+theorem concat_names_differ (t1 t2 : Track) (hn : t1.names ≠ t2.names) :
+    (concat t1 t2).names = [] ∧ ∀ nm (i : Int), readAF (concat t1 t2) nm i = .noFeature := by
+  have ht : (concat t1 t2).table = [] := by rw [(concat_spec t1 t2).2, if_neg hn]
+  refine ⟨by simp [Track.names, ht], ?_⟩
+  intro nm i
+  simp [readAF, ht, colOf]
+
+/-! ## the other entry points of the statement -/
+
+/-- `addObs(obs)` -/
+theorem addObs_spec (tr : Track) (o : Obs) : addObs tr o = ⟨tr.pts ++ [o], tr.table⟩ := rfl
+
+/-- `insertObs(obs, i)` with `0 ≤ i ≤ size` puts the observation at position `i` -/
+theorem insertAt_spec (tr : Track) (o : Obs) (i : Nat) (hi : i ≤ tr.pts.length) :
+    insertAt tr o i = ⟨tr.pts.take i ++ o :: tr.pts.drop i, tr.table⟩ := by
+  unfold insertAt pyInsert
+  have h1 : ¬ ((i : Int) < 0) := by omega
+  have h2 : ¬ ((i : Int) > (tr.pts.length : Int)) := by omega
+  simp only [h1, h2, if_false, Int.toNat_natCast, insertIdx_eq_take_drop tr.pts i o hi]
+
+/-- `removeObs(i)` with a valid index removes exactly that observation and returns 1 -/
+theorem removeObs_spec (l : List α) (i : Nat) (hi : i < l.length) :
+    removeObs l (i : Int) = (l.eraseIdx i, some 1) := by
+  have hlen : (l.eraseIdx i).length = l.length - 1 := by rw [List.length_eraseIdx, if_pos hi]
+  have hd : pyDel l (i : Int) = some (l.eraseIdx i) := by
+    rw [pyDel_nat l (i : Int) (by omega) (by omega)]; simp
+  simp only [removeObs, removeByIdx, List.isEmpty_cons, Bool.false_eq_true, if_false, List.mergeSort_singleton,
+    hasAdjDup, List.reverse_cons, List.reverse_nil, List.nil_append, delLoop, hd, hlen]
+  congr 2
+  omega
+
+/-- `removeFirstObs()` on a non-empty track -/
+theorem removeFirst_spec (l : List α) (h : l ≠ []) : removeFirst l = (l.tail, some 1) := by
+  have hl : 0 < l.length := List.length_pos_iff.mpr h
+  have := removeObs_spec l 0 hl
+  rw [List.eraseIdx_zero] at this
+  exact this
+
+/-- `removeLastObs()` on a non-empty track -/
+theorem removeLast_spec (l : List α) (h : l ≠ []) : removeLast l = (l.dropLast, some 1) := by
+  have hl : 0 < l.length := List.length_pos_iff.mpr h
+  have e : ((l.length : Int) - 1) = ((l.length - 1 : Nat) : Int) := by omega
+  unfold removeLast
+  rw [e, removeObs_spec l (l.length - 1) (by omega)]
+  congr 1
+  rw [List.dropLast_eq_take, List.eraseIdx_eq_take_drop_succ]
+  have : List.drop (l.length - 1 + 1) l = [] := List.drop_eq_nil_of_le (by omega)
+  rw [this, List.append_nil]
+
+/-- `popObs(i)` with a valid index returns that observation and removes it -/
+theorem popObs_spec (l : List α) (i : Nat) (hi : i < l.length) :
+    popObs l (i : Int) = (l.eraseIdx i, some l[i]) := by
+  simp only [popObs, pyGet_nat, List.getElem?_eq_getElem hi, removeObs_spec l i hi]
+
+/-- `track[i]`: the observation at `i`; a negative `i ≥ -size` counts from the end -/
+theorem getitemInt_spec (tr : Track) (i : Nat) (hi : i < tr.pts.length) :
+    getitemInt tr (i : Int) = some tr.pts[i] ∧
+    getitemInt tr (-((i : Int) + 1)) = some (tr.pts[tr.pts.length - 1 - i]'(by omega)) := by
+  constructor
+  · simp only [getitemInt, pyGet_nat, List.getElem?_eq_getElem hi]
+  · have h1 : ¬ ((0 : Int) ≤ -((i : Int) + 1)) := by omega
+    have h2 : (0 : Int) ≤ (tr.pts.length : Int) + -((i : Int) + 1) := by omega
+    have e : ((tr.pts.length : Int) + -((i : Int) + 1)).toNat = tr.pts.length - 1 - i := by omega
+    simp only [getitemInt, pyGet, h1, if_false, h2, if_true, e]
+    exact List.getElem?_eq_getElem (by omega)
+
+/-! ## `sortRadix` -/
+
+/-- the six key functions of `sortRadix`, most significant first: `year-1970`, `month-1`, `day-1`, `hour`, `min`,
+`sec*1000+ms` of the observation at a position -/
+def radixKeys (digits : Nat → List Int) : List (Nat → Int) :=
+  [5, 4, 3, 2, 1, 0].map (fun k => fun id => (digits id).getD k 0)
+
+/-- `sortRadix()` when every digit is inside its buckets (`0 ≤ sec*1000+ms < 60000`, `min < 60`, `hour < 24`,
+`1 ≤ day ≤ 31`, `1 ≤ month ≤ 12`, `1970 ≤ year ≤ 2069`): no `IndexError`; the result is the same observations
+(a permutation), ordered lexicographically by (year, month, day, hour, min, sec·1000+ms) — which is the order
+of the instants, C03 — and observations with equal timestamps keep their order (`i < j`): a stable sort. -/
+theorem sortRadix_spec (l : List α) (digits : Nat → List Int)
+    (hd : ∀ i, i < l.length → ∀ k, k < 6 → 0 ≤ (digits i).getD k 0 ∧ (digits i).getD k 0 < (radixBuckets.getD k 0 : Nat)) :
+    ∃ ids r, sortRadixIds digits l.length = some ids ∧ sortRadix l digits = some r ∧
+      ids.Perm (List.range l.length) ∧ r = ids.filterMap (fun i => l[i]?) ∧ r.Perm l ∧
+      ids.Pairwise (LexLe (· < ·) (radixKeys digits)) := by
+  have hk : ∀ p ∈ (radixBuckets.zipIdx.map (fun p => ((p.1, fun id => (digits id).getD p.2 0) : Nat × (Nat → Int)))),
+      ∀ i ∈ List.range l.length, 0 ≤ p.2 i ∧ p.2 i < (p.1 : Int) := by
+    intro p hp i hi
+    have hi' := List.mem_range.mp hi
+    simp only [radixBuckets, List.zipIdx_cons, List.zipIdx_nil, List.map_cons, List.map_nil, List.mem_cons,
+      List.not_mem_nil, or_false] at hp
+    rcases hp with rfl | rfl | rfl | rfl | rfl | rfl
+    · exact hd i hi' 0 (by omega)
+    · exact hd i hi' 1 (by omega)
+    · exact hd i hi' 2 (by omega)
+    · exact hd i hi' 3 (by omega)
+    · exact hd i hi' 4 (by omega)
+    · exact hd i hi' 5 (by omega)
+  obtain ⟨ids, e, hp, hs⟩ := runPasses_spec (· < ·) _ [] (List.range l.length) hk
+    (by simpa [LexLe] using List.pairwise_lt_range (n := l.length))
+  have hin : ∀ i ∈ ids, i < l.length := fun i hi => List.mem_range.mp (hp.mem_iff.mp hi)
+  refine ⟨ids, ids.filterMap (fun i => l[i]?), e, ?_, hp, rfl, ?_, ?_⟩
+  · unfold sortRadix
+    have e' : sortRadixIds digits l.length = some ids := e
+    simp only [e']
+    exact gather_eq l ids hin
+  · have := hp.filterMap (fun i => l[i]?)
+    rw [filterMap_range_getElem?] at this
+    exact this
+  · simpa [radixKeys, radixBuckets] using hs
+
+/-- `sortRadix()` sorts by time: if the lexicographic order of the digits implies the order of the timestamps
+(C03: the field-wise order of `ObsTime` is the order of the epoch instants), the result is non-decreasing in time. -/
+theorem sortRadix_sorted (l : List Obs) (digits : Nat → List Int)
+    (hd : ∀ i, i < l.length → ∀ k, k < 6 → 0 ≤ (digits i).getD k 0 ∧ (digits i).getD k 0 < (radixBuckets.getD k 0 : Nat))
+    (hkey : ∀ i j (a b : Obs), l[i]? = some a → l[j]? = some b → LexLe (· < ·) (radixKeys digits) i j → a.time ≤ b.time) :
+    ∃ r, sortRadix l digits = some r ∧ r.Perm l ∧ r.Pairwise (fun a b => a.time ≤ b.time) := by
+  obtain ⟨ids, r, _, h, _, hr, hperm, hs⟩ := sortRadix_spec l digits hd
+  refine ⟨r, h, hperm, ?_⟩
+  rw [hr]
+  refine List.Pairwise.filterMap _ ?_ hs
+  intro i j hij a ha b hb
+  exact hkey i j a b ha hb hij
 
 /-! ## T1 — the dichotomy stays in range and terminates -/
 
